@@ -109,11 +109,19 @@ def is_liveness_expr(e, live_wr):
     return e is not None and e.k == "call" and (e.q == STRONG_COUNT or e.q in live_wr or e.rq in live_wr)
 
 
+_FACTS_FOR_EXPANSION = []
+
+
 def closed_test(e, live_wr):
     """Classify a bool expression: returns 'closed' if e <=> (count == 1), 'open' if e <=> (count != 1)."""
     e = peel(e, through_try=False)
     if e is None:
         return None
+    if e.k == "call" and _FACTS_FOR_EXPANSION:
+        # a small predicate helper: `fn peer_gone<U>(h: &Arc<U>) -> bool { Arc::strong_count(h) == 1 }`
+        x = peel(expand_local_call(_FACTS_FOR_EXPANSION[0], e), through_try=False)
+        if x is not e and x is not None and x.k in ("bin", "un"):
+            e = x
     if e.k == "un" and e.op == "Not":
         r = closed_test(e.a, live_wr)
         return {"closed": "open", "open": "closed"}.get(r)
@@ -143,6 +151,12 @@ def closed_dominating(body, bb, live_wr):
     for s in range(body.n):
         t = body.term(s)
         if t["k"] != "switch":
+            continue
+        if t.get("dty") != "bool" and is_liveness_expr(switch_discr_expr(body, s), live_wr):
+            # `match Arc::strong_count(&self.circ) { 1 => .., _ => false }`
+            for v, tgt in t["targets"]:
+                if v == 1 and [x for x, tg in t["targets"] if tg == tgt] == [1] and tgt != t["else"] and must_pass_edge(body, bb, (s, tgt)):
+                    return True
             continue
         bt = bool_edge_targets(body, s)
         if not bt:
@@ -177,6 +191,7 @@ def rule_r2(facts, col, cg=None):
     cg = cg or CallGraph(facts)
     locking = locking_fns(facts, cg)
     live_wr = liveness_wrappers(facts, cg, locking)
+    _FACTS_FOR_EXPANSION[:] = [facts]
     vfs = verdict_functions(facts)
     vq = {b.q for b in vfs}
     for body in vfs:
